@@ -171,7 +171,9 @@ def action_text(alt):
         return ""
     p = alt.pid
     if alt.action == "named":
-        kids = ", ".join("%s.to_v()" % n for n in bound_names(alt))
+        # `order` (optional): the action uses the bound names in this order instead of their
+        # positional order (two alternatives may then carry the very same action text)
+        kids = ", ".join("%s.to_v()" % n for n in (getattr(alt, "order", None) or bound_names(alt)))
     elif alt.action == "angle":
         kids = "(<>,).to_v()"
     elif alt.action == "angle_multi":
@@ -491,6 +493,19 @@ class Desugar:
                 elif b and b[0] == "pat":
                     for path in pat_paths(b[1]):
                         exprs.append(("c", i) + tuple(path))
+            if getattr(alt, "order", None):
+                byname = {}
+                k = 0
+                for i, it in enumerate(alt.items):
+                    b = it.bind
+                    if b and b[0] == "name":
+                        byname[b[1]] = exprs[k]
+                        k += 1
+                    elif b and b[0] == "pat":
+                        for nm in pat_names(b[1]):
+                            byname[nm] = exprs[k]
+                            k += 1
+                exprs = [byname[nm] for nm in alt.order]
         elif alt.action == "angle":
             exprs = [("tupof", [("c", i) for i in sel])]
         elif alt.action == "angle_multi":
